@@ -246,6 +246,7 @@ def run(ch: Checker) -> None:
     chunk_decoder_checks(ch, 'C02.7', 'C02.7', 'C02.7')
     completion_typestate_check(ch, 'C02.8')
     opaque_relay_check(ch, 'C02.9')
+    ch.import_rules('C14', {'C14.7': 'C02.10', 'C14.6': 'C02.11'}, 'the origin-form target and the Host the origin sees are those of the request only if the request target is split into authority and path at the right place')
 
 
 def _loop_form_headers(g: Any, p: Any, sym: Sym, hv: Optional[ast.AST], ridx: int) -> Optional[Dict[str, str]]:
